@@ -17,7 +17,7 @@ func genAlts(t *rapid.T, maxAlts int) []Alt {
 	n := rapid.IntRange(1, maxAlts).Draw(t, "alternatives")
 	alts := make([]Alt, 0, n)
 	for i := 0; i < n; i++ {
-		if rapid.IntRange(0, 4).Draw(t, "anonymous") == 0 {
+		if rapid.IntRange(0, 4).Draw(t, "anonymous") == 4 {
 			alts = append(alts, Alt{Anon: true})
 			continue
 		}
@@ -47,7 +47,7 @@ func genAlts(t *rapid.T, maxAlts int) []Alt {
 func genSubset(t *rapid.T, label string, oneIn int) []string {
 	var out []string
 	for _, s := range SchemeNames {
-		if rapid.IntRange(0, oneIn-1).Draw(t, label+"-"+s) == 0 {
+		if rapid.IntRange(0, oneIn-1).Draw(t, label+"-"+s) == oneIn-1 {
 			out = append(out, s)
 		}
 	}
@@ -62,7 +62,7 @@ func genVec(t *rapid.T, alts []Alt) Vec {
 	// aim at the narrow classes now and then: a fully accepting alternative, or one rejecting scheme next to
 	// schemes that find nothing (the situation the anonymous alternative is about)
 	switch rapid.IntRange(0, 7).Draw(t, "aim") {
-	case 0:
+	case 3:
 		a := alts[rapid.IntRange(0, len(alts)-1).Draw(t, "aim-alt")]
 		for _, s := range a.Schemes {
 			v[s] = "ok"
